@@ -279,6 +279,9 @@ def hConnection (cfg : Cfg) (me : Bool) (w : World) (proj connId pre post : Stri
         let postPath := cellPath post postCell pq
         let instances := !pp.instances.isEmpty || !pq.instances.isEmpty
         if pj.kind == "electricalProjection" then
+          -- (accepted repair C05-electrical-weight-sized-refused) a weight other than 1 between populations without
+          -- instances is refused -- before the synapse is looked up -- instead of being dropped silently
+          if !instances && !weightIsOne then fail w me "Exception" else
           match alookup (tab cfg.projSyn me w (·.projSyn)) proj with
           | none => fail w me "KeyError"
           | some syn =>
